@@ -5,7 +5,9 @@ The generated part list *is* the expected parse result.
 BCHARS = "0123456789abcdefghijklmnopqrstuvwxyzABCDEFGHIJKLMNOPQRSTUVWXYZ'()+_,-./:=?"
 NAME_ALPHA = ["a", "b", "name", "x1", " ", ";", "=", "%", "&", "'", "é", "中", "-", ".", "[]", "<", ",",
               # not line breaks of the multipart framing (only CR and LF are): ordinary characters of a name
-              "\x0b", "\x0c", "\x1c", "\x1e", "\u0085", "\u2028", "\u2029"]
+              "\x0b", "\x0c", "\x1c", "\x1e", "\u0085", "\u2028", "\u2029",
+              # path-like names (a directory upload sends relative paths as file names): just characters
+              "/", "dir/sub/", "..", ":"]
 TEXT_UNI = ["é", "中", "€", "\U0001f600", " ", "\x00", "\x7f", " "]
 
 
